@@ -52,6 +52,9 @@ class Scratch:
             shutil.rmtree(self.dir, ignore_errors=True)
 
 
+PARSER_ONLY_VSPEC = ["perr"]     # spec modules that mention items of parser.rs
+
+
 def build_overlay(scratch_dir, vc_files=None, mutate=None):
     """copy /repo/src, apply contracts; returns Overlay"""
     src_out = os.path.join(scratch_dir, "src")
@@ -59,6 +62,14 @@ def build_overlay(scratch_dir, vc_files=None, mutate=None):
         shutil.rmtree(src_out)
     shutil.copytree(os.path.join(REPO, "src"), src_out)
     shutil.copytree(os.path.join(CONTRACTS, "vspec"), os.path.join(src_out, "vspec"))
+    if vc_files is not None and "parser.vc" not in vc_files:
+        # parser.rs stays un-annotated (plain Rust that Verus ignores): drop the spec modules that refer to its items
+        modrs = os.path.join(src_out, "vspec", "mod.rs")
+        text = open(modrs, encoding="utf-8").read()
+        for m in PARSER_ONLY_VSPEC:
+            text = text.replace(f"pub mod {m};\n", "").replace(f"pub use {m}::*;\n", "")
+            os.remove(os.path.join(src_out, "vspec", m + ".rs"))
+        open(modrs, "w", encoding="utf-8").write(text)
     vcs = [os.path.join(CONTRACTS, f) for f in (vc_files or VC_ORDER)]
     ov = Overlay(os.path.join(REPO, "src"), vcs)
     ov.materialise(src_out)
